@@ -144,7 +144,12 @@ def _exposes(rel: Rel, name, K):
     return any(n == name for n, _ in rel.cols)
 
 
+_LCA = [None]  # when lateral column alias reference is on: {alias of an earlier select item: its sources}
+
+
 def _resolve(scope, qual, name, K):
+    if qual is None and _LCA[0] is not None and name in _LCA[0] and not any(_exposes(r, name, K) for r in scope):
+        return set(_LCA[0][name])  # the name is an alias defined earlier in this select list and no source relation has such a column
     if qual is not None:
         for r in scope:
             if qual in r.quals:
@@ -209,17 +214,28 @@ def _star(rels, K):
     return out
 
 
+LCA_ON = [False]
+
+
 def eval_select(s, env, K, ds):
     scope = [_rel(r, env, K, ds) for r in s["from"]["rels"]]
     out = []
-    for it in s["items"]:
-        e = it["e"]
-        if e[0] == "star":
-            rels = scope if e[1] is None else [r for r in scope if e[1] in r.quals]
-            out += _star(rels, K)
-        else:
-            name = it["alias"] or (e[2] if e[0] == "col" else "<expr>")
-            out.append((name, _expr_sources(e, scope, env, K, ds)))
+    saved = _LCA[0]
+    _LCA[0] = {} if LCA_ON[0] else None
+    try:
+        for it in s["items"]:
+            e = it["e"]
+            if e[0] == "star":
+                rels = scope if e[1] is None else [r for r in scope if e[1] in r.quals]
+                out += _star(rels, K)
+            else:
+                name = it["alias"] or (e[2] if e[0] == "col" else "<expr>")
+                srcs = _expr_sources(e, scope, env, K, ds)
+                out.append((name, srcs))
+                if _LCA[0] is not None and it["alias"]:
+                    _LCA[0][it["alias"]] = srcs
+    finally:
+        _LCA[0] = saved
     return out
 
 
